@@ -24,7 +24,7 @@ func H_clean() {
 	dir := vxrt.Dir()
 	path := dir + "/f.snap"
 	count := vxrt.Len("count", 1, vxrt.Param("count", 2))
-	vxrt.Flag("test.count", itoa(count))
+	vxrt.Flag("test.count", vxItoa(count))
 	vxrt.Flag("test.run", "")
 	sortOpt := vxrt.Bool("sort")
 	// optional features of the directory: every subset of them (param allsubsets=1), or at most
@@ -44,12 +44,12 @@ func H_clean() {
 
 	// bodies of the live entries
 	n0 := vxrt.Param("n0", 0)
-	bA1 := symText("bodyA1", n0, true)
-	bA2 := symText("bodyA2", n, true)
-	bB1 := symText("bodyB1", n0, true)
-	stale1 := symText("stale1", n0, true)
+	bA1 := vxSymText("bodyA1", n0, true)
+	bA2 := vxSymText("bodyA2", n, true)
+	bB1 := vxSymText("bodyB1", n0, true)
+	stale1 := vxSymText("stale1", n0, true)
 	for _, b := range []string{bA1, bA2, bB1, stale1} {
-		vxrt.Assume(vxrt.Not(hasLine(b, "---")))
+		vxrt.Assume(vxrt.Not(vxHasLine(b, "---")))
 	}
 	// the second test: a Test, or (when -count is 1) a benchmark or fuzz target:
 	// *testing.B and *testing.F satisfy the interface the Match* functions take
@@ -58,17 +58,17 @@ func H_clean() {
 		nameB = []string{"TestB", "BenchmarkB", "FuzzB"}[vxrt.Choice("second-test-kind", 3)]
 	}
 	frames := []string{
-		frame("TestA - 1", bA1),
-		frame("TestA - 2", bA2),
-		frame(nameB+" - 1", bB1),
+		vxFrame("TestA - 1", bA1),
+		vxFrame("TestA - 2", bA2),
+		vxFrame(nameB+" - 1", bB1),
 	}
 	staleFrames := []string{}
 	if vxrt.Bool("stale-ordinal") {
-		staleFrames = append(staleFrames, frame("TestA - 3", stale1))
+		staleFrames = append(staleFrames, vxFrame("TestA - 3", stale1))
 	}
 	if vxrt.Bool("stale-test") {
 		// its body has a line shaped like the header of some unrelated entry
-		staleFrames = append(staleFrames, frame("TestOld - 1", "q\n[TestQ - 7]\nr"))
+		staleFrames = append(staleFrames, vxFrame("TestOld - 1", "q\n[TestQ - 7]\nr"))
 	}
 	// where the stale frames sit and whether the live ones are in sorted order
 	content := ""
@@ -80,53 +80,53 @@ func H_clean() {
 	default:
 		content = frames[2] + strings.Join(staleFrames, "") + frames[1] + frames[0]
 	}
-	writeFile(path, content)
+	vxWriteFile(path, content)
 	// a second addressed multi-entry file: TestA makes one call there; it may hold an
 	// entry with an id that is live in f.snap but stale here
 	gpath := dir + "/g.snap"
 	gStale := feature("second-file-stale-entry", 1)
-	gcontent := frame("TestA - 1", "g1")
+	gcontent := vxFrame("TestA - 1", "g1")
 	if gStale {
-		gcontent += frame("TestA - 2", "gstale")
+		gcontent += vxFrame("TestA - 2", "gstale")
 	}
-	writeFile(gpath, gcontent)
+	vxWriteFile(gpath, gcontent)
 	// an addressed file that sorts before f.snap and whose last (stale) entry lost its terminator
 	epath := dir + "/e.snap"
 	malformed := feature("earlier-file-with-unterminated-entry", 2)
-	econtent := frame("TestA - 1", "e1")
+	econtent := vxFrame("TestA - 1", "e1")
 	if malformed {
 		econtent += "\n[TestGone - 1]\nhalf written entry"
 	}
-	writeFile(epath, econtent)
+	vxWriteFile(epath, econtent)
 	// a stale standalone snapshot with a custom extension
 	hasStaleExt := feature("stale-standalone-with-ext", 3)
 	if hasStaleExt {
-		writeFile(dir+"/TestOld_1.snap.json", "{}")
+		vxWriteFile(dir+"/TestOld_1.snap.json", "{}")
 	}
 	hasStaleStandalone := feature("stale-standalone", 4)
 	if hasStaleStandalone {
-		writeFile(dir+"/TestS_2.snap", "old")
+		vxWriteFile(dir+"/TestS_2.snap", "old")
 	}
 	hasStaleFile := feature("stale-file", 5)
 	if hasStaleFile {
-		writeFile(dir+"/old.snap", frame("TestGone - 1", "x"))
+		vxWriteFile(dir+"/old.snap", vxFrame("TestGone - 1", "x"))
 	}
 	// the standalone test: a plain name, or a sub-test whose name contains '%'
 	nameS, fileS := "TestS", "TestS_1.snap"
 	if feature("standalone-name-with-percent", 6) {
 		nameS, fileS = "TestS/50%", "TestS_50%_1.snap"
 	}
-	writeFile(dir+"/"+fileS, "sv")
-	writeFile(dir+"/notes.txt", "keep")
-	writeFile(dir+"/sub.snaps/inner.snap", "keep-inner")
-	writeFile(vxrt.Dir()+"2/other.snap", "keep-other")
+	vxWriteFile(dir+"/"+fileS, "sv")
+	vxWriteFile(dir+"/notes.txt", "keep")
+	vxWriteFile(dir+"/sub.snaps/inner.snap", "keep-inner")
+	vxWriteFile(vxrt.Dir()+"2/other.snap", "keep-other")
 
 	c := WithConfig(Dir(dir), Filename("f"), Update(false))
 	cs := WithConfig(Dir(dir), Update(false))
 	cg := WithConfig(Dir(dir), Filename("g"), Update(false))
 	ce := WithConfig(Dir(dir), Filename("e"), Update(false))
 	for r := 0; r < count; r++ {
-		ta, tb, ts := newT("TestA"), newT(nameB), newT(nameS)
+		ta, tb, ts := vxNewT("TestA"), vxNewT(nameB), vxNewT(nameS)
 		c.MatchSnapshot(ta, bA1)
 		c.MatchSnapshot(ta, bA2)
 		c.MatchSnapshot(tb, bB1)
@@ -142,25 +142,25 @@ func H_clean() {
 	cleanMode := !ci && (env == "true" || env == "clean")
 	sorting := sortOpt && !ci
 	stamp := vxrt.FSStamp()
-	before := readFile(path)
+	before := vxReadFile(path)
 
 	Clean(nil, CleanOpts{Sort: sortOpt})
 
 	out := vxrt.Stdout()
-	after := readFile(path)
+	after := vxReadFile(path)
 	nStaleEntries := len(staleFrames)
 
 	switch prop {
 	case 7: // C07: nothing addressed in this run is lost, altered or listed
 		for _, e := range []struct{ id, body string }{{"[TestA - 1]", bA1}, {"[TestA - 2]", bA2}, {"[" + nameB + " - 1]", bB1}} {
-			got, _, err := refPrev(e.id, path)
+			got, _, err := vxRefPrev(e.id, path)
 			vxrt.Assert(err == nil, "C07:addressed-entry-still-present")
 			vxrt.Assert(vxrt.Eq(got, e.body), "C07:addressed-entry-value-unchanged")
 		}
-		vxrt.Assert(readFile(dir+"/"+fileS) == "sv", "C07:addressed-standalone-untouched")
-		gg, _, gerr := refPrev("[TestA - 1]", gpath)
+		vxrt.Assert(vxReadFile(dir+"/"+fileS) == "sv", "C07:addressed-standalone-untouched")
+		gg, _, gerr := vxRefPrev("[TestA - 1]", gpath)
 		vxrt.Assert(gerr == nil && gg == "g1", "C07:addressed-entry-in-second-file-unchanged")
-		ee, _, eerr := refPrev("[TestA - 1]", epath)
+		ee, _, eerr := vxRefPrev("[TestA - 1]", epath)
 		vxrt.Assert(eerr == nil && ee == "e1", "C07:addressed-entry-in-earlier-file-unchanged")
 		for _, id := range []string{"TestA - 1", "TestA - 2", nameB + " - 1"} {
 			if id == "TestA - 2" && gStale {
@@ -180,7 +180,7 @@ func H_clean() {
 		for _, f := range staleFrames {
 			id := f[2:strings.Index(f, "]")]
 			vxrt.Assert(strings.Contains(out, vxBullet+id+"\n"), "C09:stale-entry-reported")
-			_, _, err := refPrev("["+id+"]", path)
+			_, _, err := vxRefPrev("["+id+"]", path)
 			if cleanMode {
 				vxrt.Assert(err != nil, "C09:stale-entry-removed-in-clean-mode")
 			} else {
@@ -189,22 +189,22 @@ func H_clean() {
 		}
 		if gStale {
 			vxrt.Reach("second-file-stale")
-			_, _, gerr := refPrev("[TestA - 2]", gpath)
+			_, _, gerr := vxRefPrev("[TestA - 2]", gpath)
 			vxrt.Assert((gerr != nil) == cleanMode, "C09:stale-entry-of-second-file-removed-iff-clean-mode")
-			f2, _, ferr := refPrev("[TestA - 2]", path)
+			f2, _, ferr := vxRefPrev("[TestA - 2]", path)
 			vxrt.Assert(ferr == nil && vxrt.Eq(f2, bA2), "C09:live-entry-with-the-same-id-in-other-file-kept")
 		}
 		if hasStaleExt {
 			vxrt.Assert(strings.Contains(out, vxBullet+dir+"/TestOld_1.snap.json\n"), "C09:stale-file-with-custom-extension-reported")
-			vxrt.Assert((readFile(dir+"/TestOld_1.snap.json") == "<missing>") == cleanMode, "C09:stale-file-with-custom-extension-removed-iff-clean-mode")
+			vxrt.Assert((vxReadFile(dir+"/TestOld_1.snap.json") == "<missing>") == cleanMode, "C09:stale-file-with-custom-extension-removed-iff-clean-mode")
 		}
 		if hasStaleStandalone {
 			vxrt.Assert(strings.Contains(out, vxBullet+dir+"/TestS_2.snap\n"), "C09:stale-standalone-reported")
-			vxrt.Assert((readFile(dir+"/TestS_2.snap") == "<missing>") == cleanMode, "C09:stale-standalone-removed-iff-clean-mode")
+			vxrt.Assert((vxReadFile(dir+"/TestS_2.snap") == "<missing>") == cleanMode, "C09:stale-standalone-removed-iff-clean-mode")
 		}
 		if hasStaleFile {
 			vxrt.Assert(strings.Contains(out, vxBullet+dir+"/old.snap\n"), "C09:stale-file-reported")
-			vxrt.Assert((readFile(dir+"/old.snap") == "<missing>") == cleanMode, "C09:stale-file-removed-iff-clean-mode")
+			vxrt.Assert((vxReadFile(dir+"/old.snap") == "<missing>") == cleanMode, "C09:stale-file-removed-iff-clean-mode")
 		}
 		if !cleanMode && !sorting {
 			vxrt.Assert(vxrt.FSStamp() == stamp, "C09:report-mode-writes-nothing")
@@ -213,7 +213,7 @@ func H_clean() {
 			// sorting may only reorder: every frame still there
 			for _, f := range append(append([]string{}, frames...), staleFrames...) {
 				id := f[2:strings.Index(f, "]")]
-				_, _, err := refPrev("["+id+"]", path)
+				_, _, err := vxRefPrev("["+id+"]", path)
 				vxrt.Assert(err == nil, "C09:no-entry-removed-outside-clean-mode")
 			}
 			vxrt.Assert(len(after) == len(before), "C09:file-size-unchanged-outside-clean-mode")
@@ -226,19 +226,19 @@ func H_clean() {
 			}
 		}
 		vxrt.Assert(strings.Count(out, vxBullet) == wantListed, "C09:exactly-the-stale-items-are-listed")
-		vxrt.Assert(readFile(dir+"/notes.txt") == "keep", "C09:non-snap-file-untouched")
-		vxrt.Assert(readFile(dir+"/sub.snaps/inner.snap") == "keep-inner", "C09:sub-directory-untouched")
-		vxrt.Assert(readFile(vxrt.Dir()+"2/other.snap") == "keep-other", "C09:unvisited-directory-untouched")
+		vxrt.Assert(vxReadFile(dir+"/notes.txt") == "keep", "C09:non-snap-file-untouched")
+		vxrt.Assert(vxReadFile(dir+"/sub.snaps/inner.snap") == "keep-inner", "C09:sub-directory-untouched")
+		vxrt.Assert(vxReadFile(vxrt.Dir()+"2/other.snap") == "keep-other", "C09:unvisited-directory-untouched")
 		vxrt.Assert(!strings.Contains(out, "notes.txt") && !strings.Contains(out, "sub.snaps") && !strings.Contains(out, "other.snap"), "C09:untouched-items-not-listed")
 	case 5: // C05: Clean deletes only off CI with UPDATE_SNAPS true|clean, sorts only when asked
 		if !cleanMode {
 			for _, f := range append(append([]string{}, frames...), staleFrames...) {
 				id := f[2:strings.Index(f, "]")]
-				_, _, err := refPrev("["+id+"]", path)
+				_, _, err := vxRefPrev("["+id+"]", path)
 				vxrt.Assert(err == nil, "C05:clean-deletes-only-in-clean-mode")
 			}
-			vxrt.Assert(!hasStaleFile || readFile(dir+"/old.snap") != "<missing>", "C05:clean-deletes-only-in-clean-mode")
-			vxrt.Assert(!hasStaleStandalone || readFile(dir+"/TestS_2.snap") != "<missing>", "C05:clean-deletes-only-in-clean-mode")
+			vxrt.Assert(!hasStaleFile || vxReadFile(dir+"/old.snap") != "<missing>", "C05:clean-deletes-only-in-clean-mode")
+			vxrt.Assert(!hasStaleStandalone || vxReadFile(dir+"/TestS_2.snap") != "<missing>", "C05:clean-deletes-only-in-clean-mode")
 		}
 		if ci {
 			vxrt.Reach("ci")
@@ -269,14 +269,14 @@ func H_C07_symlink() {
 	vxrt.Flag("test.count", "1")
 	base := vxrt.Dir()
 	realDir, link := base+"/real", base+"/link"
-	os_MkdirAll(realDir + "/__snapshots__")
+	vxOs_MkdirAll(realDir + "/__snapshots__")
 	vxrt.Symlink(realDir, link)
 	dir := link + "/__snapshots__"
-	writeFile(dir+"/f.snap", frame("TestA - 1", "a")+frame("TestA - 2", "stale entry"))
-	writeFile(dir+"/old.snap", frame("TestOld - 1", "stale file"))
+	vxWriteFile(dir+"/f.snap", vxFrame("TestA - 1", "a")+vxFrame("TestA - 2", "stale entry"))
+	vxWriteFile(dir+"/old.snap", vxFrame("TestOld - 1", "stale file"))
 	c := WithConfig(Dir(dir), Filename("f"))
 	cs := WithConfig(Dir(dir))
-	t := newT("TestA")
+	t := vxNewT("TestA")
 	c.MatchSnapshot(t, "a")
 	cs.MatchStandaloneSnapshot(t, "s")
 	t.end()
@@ -285,8 +285,53 @@ func H_C07_symlink() {
 	out := vxrt.Stdout()
 	vxrt.Assert(!strings.Contains(out, "/f.snap\n") && !strings.Contains(out, "TestA_1.snap"), "C07:addressed-file-not-listed")
 	vxrt.Assert(!strings.Contains(out, vxBullet+"TestA - 1\n"), "C07:addressed-entry-not-listed")
-	got, _, err := refPrev("[TestA - 1]", realDir+"/__snapshots__/f.snap")
-	vxrt.Assert(err == nil && got == "a" && readFile(realDir+"/__snapshots__/TestA_1.snap") == "s", "C07:addressed-entry-value-unchanged")
+	got, _, err := vxRefPrev("[TestA - 1]", realDir+"/__snapshots__/f.snap")
+	vxrt.Assert(err == nil && got == "a" && vxReadFile(realDir+"/__snapshots__/TestA_1.snap") == "s", "C07:addressed-entry-value-unchanged")
 	vxrt.Assert(strings.Contains(out, vxBullet+"TestA - 2\n") && strings.Contains(out, "old.snap\n"), "C09:stale-entry-reported")
-	vxrt.Assert((readFile(realDir+"/__snapshots__/old.snap") == "<missing>") == clean, "C09:stale-file-removed-iff-clean-mode")
+	vxrt.Assert((vxReadFile(realDir+"/__snapshots__/old.snap") == "<missing>") == clean, "C09:stale-file-removed-iff-clean-mode")
+}
+
+// H_C09_odd: stale items are reported (and removed in clean mode) also when (a) a test of the run
+// addressed a snapshot file that does not exist - creation was not allowed, so the call failed -
+// and (b) a stale entry's ordinal is written with leading zeros ("[TestA - 02]" while TestA
+// addressed slots 1 and 2: the matcher only ever looks for "[TestA - 2]").
+func H_C09_odd() {
+	vxrt.CI(false)
+	vxrt.EnvFixed("NO_COLOR", "1")
+	clean := vxrt.Bool("clean-mode")
+	if clean {
+		vxrt.EnvFixed("UPDATE_SNAPS", "clean")
+	} else {
+		vxrt.EnvFixed("UPDATE_SNAPS", "")
+	}
+	vxrt.Flag("test.run", "")
+	vxrt.Flag("test.count", "1")
+	dir := vxrt.Dir()
+	path := dir + "/f.snap"
+	vxWriteFile(path, vxFrame("TestA - 1", "one")+vxFrame("TestA - 2", "two")+vxFrame("TestA - 02", "stale, zero-padded")+vxFrame("TestOld - 1", "stale"))
+	c := WithConfig(Dir(dir), Filename("f"), Update(false))
+	ta := vxNewT("TestA")
+	c.MatchSnapshot(ta, "one")
+	c.MatchSnapshot(ta, "two")
+	ta.end()
+	missing := vxrt.Bool("a-test-addressed-a-missing-file")
+	if missing {
+		cm := WithConfig(Dir(dir), Filename("not-there"), Update(false))
+		tm := vxNewT("TestM")
+		cm.MatchSnapshot(tm, "m")
+		tm.end()
+		vxrt.Assert(len(tm.errors) == 1 && vxReadFile(dir+"/not-there.snap") == "<missing>", "setup:missing-snapshot-fails")
+	}
+	vxrt.Assert(len(ta.errors) == 0, "setup:passes")
+	Clean(nil)
+	out := vxrt.Stdout()
+	for _, id := range []string{"TestOld - 1", "TestA - 02"} {
+		vxrt.Assert(strings.Contains(out, vxBullet+id+"\n"), "C09:stale-entry-reported")
+		_, _, err := vxRefPrev("["+id+"]", path)
+		vxrt.Assert((err != nil) == clean, "C09:stale-entry-removed-iff-clean-mode")
+	}
+	for _, e := range [][2]string{{"TestA - 1", "one"}, {"TestA - 2", "two"}} {
+		got, _, err := vxRefPrev("["+e[0]+"]", path)
+		vxrt.Assert(err == nil && got == e[1] && !strings.Contains(out, vxBullet+e[0]+"\n"), "C07:addressed-entry-value-unchanged")
+	}
 }
